@@ -178,6 +178,8 @@ def main():
                 top = pgen_build(h, E, p)
             else:
                 top = build(h, p["D"], p["style"])
+            if p.get("kind") == "wrap":
+                top = h.generators.Wrapper(top)
             if p.get("kind") == "flat":
                 from hdl21.flatten import flatten
                 top = flatten(top)
